@@ -110,7 +110,11 @@ def confirm_plain(ctx, cs, codes, example, iso):
         if p is None or p.returncode != 0:
             bad = 'unguarded interpreter died (rc=%s) on %s' % (getattr(p, 'returncode', 'timeout'), brief(c))
             break
-        evs.append(json.loads(p.stdout))
+        got = json.loads(p.stdout)
+        if tracecheck.monstrous(got):
+            bad = 'without the guard the library returns a number with thousands of digits on %s' % _brief_any(c)
+            break
+        evs.append(got)
     if bad is None and evs:
         v = tracecheck.validate([evs], 'MoneyTrace', tag=ctx.pid + '-plain', env={'ISO_FILE': iso})
         for e in v.errors:
@@ -340,3 +344,10 @@ def rate_eq_cases(ctx, rnd):
 
 def brief_eq(e):
     return 'rate_eq %s vs %s' % (rate_text(e['r1']), rate_text(e['r2'])) if 'r1' in e else 'rate_eq'
+
+
+def _brief_any(c):
+    try:
+        return brief(c) if 'brief' in globals() else _brief(c)
+    except Exception:
+        return json.dumps(c)[:160]
